@@ -34,6 +34,9 @@ type c20Plan struct {
 	Corrupt     int // 0 none, 1 delete file, 2 flip block crc, 3 flip data byte, 4 flip metadata
 	CorruptPos  int
 	Pad         int
+	// SnapAtExport: the exporter takes a regular snapshot right before the export, so
+	// that its log store already holds a snapshot record at exactly the exported index
+	SnapAtExport bool
 }
 
 var memberCaseNames = []string{"all-old", "subset-12", "single-1", "old1-plus-new", "entirely-new", "single-2",
@@ -178,6 +181,7 @@ func TestVF_C20_Import(t *testing.T) {
 			AddNV:       vfhelp.Pick(t, "addnv", 1) == 1,
 			SnapEntries: []uint64{0, 0, 4, 9}[vfhelp.Pick(t, "snap", 2)],
 			Exporter:    vfhelp.PickN(t, "exporter", 2),
+			SnapAtExport: vfhelp.Pick(t, "snapatexport", 1) == 1,
 			MemberCase:  vfhelp.PickN(t, "members", len(memberCaseNames)),
 			Corrupt:     []int{0, 0, 0, 1, 2, 3, 4, 0}[vfhelp.Pick(t, "corrupt", 3)],
 			CorruptPos:  vfhelp.Pick(t, "cpos", 12),
@@ -289,6 +293,13 @@ func runC20(t *rapid.T, st *vfhelp.Stats, p c20Plan) ([]string, bool, interface{
 	}
 	if err := exp.FS.MkdirAll("/export", 0o755); err != nil {
 		return inconclusive("mkdir")
+	}
+	if p.SnapAtExport {
+		sctx, scancel := context.WithTimeout(context.Background(), 10*time.Second)
+		if _, serr := exp.NH.SyncRequestSnapshot(sctx, shardID, dragonboat.SnapshotOption{}); serr == nil {
+			labels = append(labels, "regular-snapshot-at-exported-index")
+		}
+		scancel()
 	}
 	ctx, cancel := context.WithTimeout(context.Background(), 10*time.Second)
 	index, err := exp.NH.SyncRequestSnapshot(ctx, shardID, dragonboat.SnapshotOption{Exported: true, ExportPath: "/export"})
